@@ -7,6 +7,8 @@ package main
 //	sdec <data> <pw> um=<..> fin=<..>            ScryptChacha20poly1305.Decrypt       -> ok <hex> | err other | panic
 //	xdec <data> <pw> key=<hex>                   Sha256Xor.Decrypt                    -> ok <hex> | err <Name> | panic
 //	senc|xenc <data> <pw>                        real Encrypt (random salt/nonce) then Decrypt -> ok same
+//	xafter <n> <seed> <pw> :: <op>               sha256-xor round trip of n bytes, then <op> in the same process -> big=ok_same <op's output>
+//	xref <data> <pw> key=<hex>                   Sha256Xor.Encrypt; the ciphertext is decrypted by the Lean reference -> ok ct=<hex> rt=same
 //	lock <type> <crypto> <seed> <n> <pw> <pw2>   real wallet Lock / Serialize / Unlock
 //	lockl | lockfix | svcl | svcfix              wallets loaded from sparse / legacy files: see legacy.go
 //
@@ -154,6 +156,55 @@ func execEnc(f []string) string {
 		return "ok wrong-password-accepted"
 	}
 	return "ok same"
+}
+
+// execXref: the ciphertext itself is handed to the driver, which decrypts it with the REFERENCE
+// (the Lean model of the construction with Lean's SHA-256): Encrypt must produce the reference
+// ciphertext for the nonce it drew, not merely something its own Decrypt accepts.
+func execXref(f []string) string {
+	data, pw := PHex(f[1]), PHex(f[2])
+	c := encrypt.Sha256Xor{}
+	ct, err := c.Encrypt(data, pw)
+	if err != nil {
+		return "err other"
+	}
+	rt := "same"
+	pt, err := c.Decrypt(ct, pw)
+	if err != nil {
+		rt = "decrypt-failed"
+	} else if !bytes.Equal(pt, data) {
+		rt = "different"
+	}
+	return "ok ct=" + Hex(ct) + " rt=" + rt
+}
+
+// execXafter: a sha256-xor round trip of <n> bytes, then the op after " :: " in the same process
+func execXafter(op string, f []string) string {
+	i := strings.Index(op, " :: ")
+	if i < 0 {
+		panic("harness: xafter without inner op")
+	}
+	inner := op[i+4:]
+	data := NewRng(binary.BigEndian.Uint64(PHex(f[2]))).Bytes(int(PU64(f[1])))
+	pw := PHex(f[3])
+	big := "ok_same"
+	c := encrypt.Sha256Xor{}
+	if ct, err := c.Encrypt(data, pw); err != nil {
+		big = "err"
+	} else if pt, err := c.Decrypt(ct, pw); err != nil {
+		big = "decrypt-failed"
+	} else if !bytes.Equal(pt, data) {
+		big = "different"
+	}
+	out := func() (out string) {
+		defer func() {
+			if r := recover(); r != nil {
+				out = fmt.Sprintf("panic %v", r)
+			}
+		}()
+		return c18Exec(inner)
+	}()
+	return "big=" + big + " " + out
 }
 
 // ---- wallets ----
@@ -511,6 +562,10 @@ func c18Exec(op string) string {
 		return execXdec(f)
 	case "senc", "xenc":
 		return execEnc(f)
+	case "xref":
+		return execXref(f)
+	case "xafter":
+		return execXafter(op, f)
 	case "lock":
 		return execLock(f)
 	case "alias":
@@ -650,6 +705,75 @@ func c18Gen(r *Rng, tier string, emit func(string)) {
 		scale = 12
 	}
 	pwOf := func() []byte { return r.Bytes(1 + r.Intn(12)) }
+
+	// --- LARGE plaintexts first, small ones after them in the same process (own stream).  The sha256-xor block
+	// index is a varint: 1 byte up to block 63, 2 bytes from block 64 (plaintext >= 2013 bytes; the secrets of a
+	// wallet with ~18 addresses), 3 bytes from block 8192.  Whatever a long operation leaves behind must not
+	// change a later short one: round trips, the ciphertext against the reference (xref), reference-built
+	// ciphertexts (xdec), and lock / unlock of big then small wallets.
+	{
+		cq := *r
+		cq.U64()
+		lr := NewRng(cq.U64() ^ 0xB16)
+		lpw := func() []byte { return lr.Bytes(1 + lr.Intn(12)) }
+		// `xafter <n> <seed> <pw> :: <op>`: ONE op = a sha256-xor round trip of n bytes, then <op> (so that a replay of
+		// the line alone reproduces what the long operation did to the short one)
+		after := func(n int, op string) string {
+			return fmt.Sprintf("xafter %d %s %s :: %s", n, Hex(lr.Bytes(8)), Hex(lpw()), op)
+		}
+		smallOps := func() []string {
+			var out []string
+			d, pw := lr.Bytes(lr.Intn(70)), lpw()
+			out = append(out, fmt.Sprintf("xenc %s %s", Hex(d), Hex(pw)))
+			d, pw = lr.Bytes(lr.Intn(70)), lpw()
+			out = append(out, fmt.Sprintf("xref %s %s key=%s", Hex(d), Hex(pw), Hex(secp256k1.Secp256k1Hash(pw))))
+			d, pw = lr.Bytes(lr.Intn(70)), lpw()
+			out = append(out, xdecOp(b64(mkXor(d, pw, lr.Bytes(32))), pw))
+			return out
+		}
+		xorT := string(crypto.CryptoTypeSha256Xor)
+		smallLock := func() string {
+			pw := lpw()
+			return fmt.Sprintf("lock %s %s %s %d %s %s", []string{"deterministic", "bip44", "collection"}[lr.Intn(3)], xorT, Hex(lr.Bytes(16)),
+				1+lr.Intn(3), Hex(pw), Hex(append([]byte{2}, pw...)))
+		}
+		sizes := []int{1980, 2012, 2013, 2016, 2044, 2045, 2048, 2080, 4100}
+		if tier == "thorough" {
+			sizes = append(sizes, 2011, 2014, 2047, 2077, 3000, 8200, 16500, 70000, 262109, 262110, 262200)
+		}
+		for i, n := range sizes {
+			d, pw := lr.Bytes(n), lpw()
+			switch {
+			case n > 20000:
+				emit(fmt.Sprintf("xenc %s %s", Hex(d), Hex(pw))) // the Lean reference is not run on these
+			case i%3 == 0:
+				emit(fmt.Sprintf("xenc %s %s", Hex(d), Hex(pw)))
+			case i%3 == 1:
+				emit(fmt.Sprintf("xref %s %s key=%s", Hex(d), Hex(pw), Hex(secp256k1.Secp256k1Hash(pw))))
+			default:
+				emit(xdecOp(b64(mkXor(d, pw, lr.Bytes(32))), pw))
+			}
+			if n > 4000 && n < 20000 {
+				emit(fmt.Sprintf("senc %s %s", Hex(d), Hex(pw)))
+			}
+			for _, op := range smallOps() {
+				emit(after(n, op))
+			}
+			if i%3 == 0 {
+				emit(after(n, smallLock()))
+			}
+		}
+		for i, n := range []int{18, 25, 40, 17, 19, 64} {
+			if tier != "thorough" && i >= 3 {
+				break
+			}
+			for _, typ := range []string{"deterministic", "bip44", "collection"} {
+				pw := lpw()
+				emit(fmt.Sprintf("lock %s %s %s %d %s %s", typ, xorT, Hex(lr.Bytes(16)), n, Hex(pw), Hex(append([]byte{2}, pw...))))
+				emit(smallLock())
+			}
+		}
+	}
 
 	// --- wallets loaded from sparse / legacy files (own stream; the slow default-cipher cases run in the
 	// background while everything else is generated and are collected at the end) ---
